@@ -11,7 +11,8 @@ import FunModel.Conc
       parked/woken only inside an operation whose first segment is in the log and whose last segment
       parked; `cancelled` is set only by a `cancel` action after the operation's start;
     * `runCase` (what the driver executes) only visits `Reach'`-able systems. -/
-namespace FunModel.Conc
+namespace FunModel.ConcSubj
+open FunModel.Conc
 variable {σ Op : Type}
 
 /-- the initial system of `runCase` -/
@@ -523,8 +524,8 @@ theorem RInv.init (i : σ) (programs : List (List Op)) : RInv programs ([] : Lis
   refine ⟨?_, by simp [initSys], ?_, ?_, ?_, ?_, ?_, ?_, ?_⟩
   · intro p hp; simp [initSys] at hp
   · intro t th h; obtain ⟨p, h1, rfl⟩ := hget t th h; exact h1
-  · intro t th h; obtain ⟨p, h1, rfl⟩ := hget t th h; simp [Conc.retOps]
-  · intro t th h; obtain ⟨p, h1, rfl⟩ := hget t th h; simp [Conc.retPcs]
+  · intro t th h; obtain ⟨p, h1, rfl⟩ := hget t th h; simp [ConcSubj.retOps]
+  · intro t th h; obtain ⟨p, h1, rfl⟩ := hget t th h; simp [ConcSubj.retPcs]
   · intro t th h hst; obtain ⟨p, h1, rfl⟩ := hget t th h
     by_cases hp : p.isEmpty = true <;> simp [hp] at hst
   · intro t th h hc; obtain ⟨p, h1, rfl⟩ := hget t th h; simp at hc
@@ -563,9 +564,9 @@ theorem RInv.step {sub : Subject σ Op} {programs : List (List Op)} {log : List 
     · intro i thi' hi
       by_cases hne : i = t
       · subst hne; rw [hth'] at hi; cases hi
-        simp only [Conc.retOps, retOf_append, List.map_append]
+        simp only [ConcSubj.retOps, retOf_append, List.map_append]
         have := hI.rops i th hth
-        simp only [Conc.retOps] at this
+        simp only [ConcSubj.retOps] at this
         rw [this, hops]
         cases hf : o.fin with
         | ret r =>
@@ -575,14 +576,14 @@ theorem RInv.step {sub : Subject σ Op} {programs : List (List Op)} {log : List 
           rw [hf] at hfin
           simp [Ev.retOf, hf, hfin.1]
       · obtain ⟨thi, g1, g2⟩ := hback i thi' hi hne
-        simp only [Conc.retOps, retOf_append, hret_ne i hne, Option.toList_none, List.append_nil]
+        simp only [ConcSubj.retOps, retOf_append, hret_ne i hne, Option.toList_none, List.append_nil]
         rw [g2.1, g2.2.1]; exact hI.rops i thi g1
     · intro i thi' hi
       by_cases hne : i = t
       · subst hne; rw [hth'] at hi; cases hi
-        simp only [Conc.retPcs, retOf_append, List.map_append]
+        simp only [ConcSubj.retPcs, retOf_append, List.map_append]
         have := hI.rpcs i th hth
-        simp only [Conc.retPcs] at this
+        simp only [ConcSubj.retPcs] at this
         rw [this]
         cases hf : o.fin with
         | ret r =>
@@ -592,7 +593,7 @@ theorem RInv.step {sub : Subject σ Op} {programs : List (List Op)} {log : List 
           rw [hf] at hfin
           simp [Ev.retOf, hf, hfin.1]
       · obtain ⟨thi, g1, g2⟩ := hback i thi' hi hne
-        simp only [Conc.retPcs, retOf_append, hret_ne i hne, Option.toList_none, List.append_nil]
+        simp only [ConcSubj.retPcs, retOf_append, hret_ne i hne, Option.toList_none, List.append_nil]
         rw [g2.2.1]; exact hI.rpcs i thi g1
     · intro i thi' hi hst'
       by_cases hne : i = t
@@ -694,11 +695,11 @@ theorem RInv.step {sub : Subject σ Op} {programs : List (List Op)} {log : List 
       rw [g2]; exact hI.ops i thi g1
     · intro i thi' hi
       obtain ⟨thi, g1, g2, g3, -⟩ := hback i thi' hi
-      simp only [Conc.retOps, retOf_append, hret i, Option.toList_none, List.append_nil]
+      simp only [ConcSubj.retOps, retOf_append, hret i, Option.toList_none, List.append_nil]
       rw [g2, g3]; exact hI.rops i thi g1
     · intro i thi' hi
       obtain ⟨thi, g1, g2, g3, -⟩ := hback i thi' hi
-      simp only [Conc.retPcs, retOf_append, hret i, Option.toList_none, List.append_nil]
+      simp only [ConcSubj.retPcs, retOf_append, hret i, Option.toList_none, List.append_nil]
       rw [g3]; exact hI.rpcs i thi g1
     · intro i thi' hi hst'
       obtain ⟨thi, g1, g2, g3, g4, -⟩ := hback i thi' hi
@@ -1049,4 +1050,4 @@ theorem runActs_witness {sub : Subject σ Op} {s : Sys σ Op} {acts : List Act} 
     simp only [hr] at h
     exact ⟨log, s', runActs_reach hr, h⟩
 
-end FunModel.Conc
+end FunModel.ConcSubj
